@@ -1,6 +1,7 @@
 import PyPhysim.Proofs.C08
 import PyPhysim.Proofs.C08Matrix
 import PyPhysim.Proofs.C08Links
+import PyPhysim.Proofs.C08Gen
 
 /-!
 # C08 — multi-user channel matrix views stay coherent across any sequence of updates
@@ -501,5 +502,154 @@ example :
        .setW (some [[[2]], [[1]]]), .corrupt [[[1]], [[1]]] [] (some [[10], [20]])]).2.getLast?
       = some (.rx [[[30]], [[33]]] (some [[10], [20]])) := by
   decide
+
+/-! ## second tie to the source: the cache-invalidation structure, by regeneration
+
+`Generated/C08Effects.lean` is re-emitted from `pyphysim/channels/multiuser.py` on every check
+run (`harness/gen/c08.py`): for each of the two classes and each public method / property
+getter / property setter — overrides resolved per class, private helpers and base-class calls
+inlined — the attributes it resets on every normal path, assigns, writes only on some paths, may
+fill lazily and reads; the attributes a fresh object has; what every lazy fill reads.  The
+theorems below compare those tables with the model and prove the invalidation discipline on
+them, so that a dropped / conditional reset, a getter that stops recomputing, or a new cached
+attribute breaks a proof obligation (independently of the seeded correspondence). -/
+section effects
+open PyPhysim.CacheEffects PyPhysim.Generated
+
+/-- The effect table `effect` IS what the model does: for every state, every operation and all
+    arguments, `step` (i) changes no field outside the table (nor the class flag), (ii) leaves a
+    field listed under `fills` as it was or takes it from `None` to a value, and (iii) leaves
+    `None` in every field listed under `clears` whenever the call is accepted. -/
+theorem model_step_has_table_effect (F : Fns α) (st : State α) (op : Op α) :
+    let e := effect st.isExt op.kind
+    let st' := (step Cfg.fixed F st op).1
+    st'.isExt = st.isExt
+    ∧ (∀ f, f ∉ e.touched → f.agree st st')
+    ∧ (∀ f ∈ e.fills, f.agree st st' ∨ (f.isNone st ∧ ¬ f.isNone st'))
+    ∧ ((∀ err, (step Cfg.fixed F st op).2 ≠ .err err) → ∀ f ∈ e.clears, f.isNone st') :=
+  ⟨(step_sameOutside F st op).1.symm, (step_sameOutside F st op).2,
+   fun f hf => step_fillOnly F st op f hf, fun hok f hf => step_clears F st op f hf hok⟩
+
+/-- … and the table is not an over-approximation: on concrete two-user objects of either class
+    (kernel-evaluated, integers) every field the table lists for an operation is really changed
+    by that operation. -/
+theorem model_effect_table_is_tight : tight false = true ∧ tight true = true := by
+  decide
+
+/-- The dependency table `specDeps` IS what the coherence invariant encodes: `Coherent` is the
+    conjunction of one clause per derived field, and the clause of a derived field reads that
+    field and the fields `specDeps` lists for it, nothing else. -/
+theorem coherence_reads_only_spec_dependencies (F : Fns α) (a b : State α) :
+    (Coherent F a ↔ ∀ f ∈ derivedFlds, clause F f a)
+    ∧ ∀ f, f.agree a b → (∀ g ∈ specDeps f, g.agree a b) → (clause F f a ↔ clause F f b) :=
+  ⟨coherent_iff_clauses F a, fun f hf hd => clause_congr F f a b hf hd⟩
+
+/-- Bridge (i): every generated row of both classes equals (as sets of attributes) the effect of
+    the model operation behind that entry point — same resets, same assignments, same
+    conditional writes, same lazy fills; entry points without a model operation (`calc_Q`,
+    `calc_SINR`, seeding, …) write nothing; every modelled entry point has a row. -/
+theorem generated_effects_match_model :
+    (C08Effects.rows.all rowMatches && entryPointsPresent C08Effects.rows) = true := by
+  decide +kernel
+
+omit [Add α] [Mul α] [Zero α] in
+/-- The attributes of a fresh object are exactly the ones the model has a field for (plus the two
+    random generators), `None` exactly where `State.init` has `none`; no entry point touches an
+    attribute that `__init__` does not create.  A new private attribute breaks this. -/
+theorem generated_attributes_known :
+    (initMatches C08Effects.initAttrs && mentionsOnlyInit C08Effects.initAttrs C08Effects.rows) = true
+    ∧ ∀ (e : Bool) (f : Fld), f.isNone (State.init α e) ↔ f ∈ initNone :=
+  ⟨by decide +kernel, init_isNone_iff⟩
+
+/-- The lazily filled attributes found in the source are the model's caches, and the attributes
+    each fill (transitively, through the eagerly derived ones) reads are exactly the fields
+    `specDeps` says the cached value is computed from. -/
+theorem generated_fill_reads_match_model : fillsMatch C08Effects.fillReads = true := by
+  decide +kernel
+
+/-- Bridge (ii), the sufficiency condition, on the GENERATED tables: every entry point of either
+    class that writes an attribute resets or rewrites — on every normal path — every derived
+    attribute (lazy cache or eagerly recomputed) whose dependency closure, taken from the generated
+    fill read-sets, contains it. -/
+theorem generated_effects_sufficient :
+    sufficient (depsOf C08Effects.fillReads) C08Effects.rows = true := by
+  decide +kernel
+
+/-- What bridge (ii) means, for ANY object with the generated structure (no reference to the hand
+    model): let every derived attribute have a coherence relation that reads only that attribute
+    and its dependency closure (`Local`), in any value type.  If a call of an entry point changes
+    only what its generated row lists as written, and what it stores in a derived attribute is
+    `None` or coherent (`Obeys`), then it takes coherent objects to coherent objects. -/
+theorem generated_tables_preserve_coherence {V : Type} (none : V)
+    (rel : String → String → Obj V → Prop)
+    (hloc : ∀ cls, Local (depsOf C08Effects.fillReads cls) (rel cls))
+    (r : Row) (hr : r ∈ C08Effects.rows) (σ τ : Obj V)
+    (hob : Obeys none (depsOf C08Effects.fillReads r.cls) (rel r.cls) r σ τ)
+    (hcoh : Coh none (depsOf C08Effects.fillReads r.cls) (fun _ => false) (rel r.cls) σ) :
+    Coh none (depsOf C08Effects.fillReads r.cls) (fun _ => false) (rel r.cls) τ :=
+  sufficientBut_preserves_coherence none (depsOf C08Effects.fillReads) (fun _ _ => false) C08Effects.rows
+    (by rw [← sufficient_eq_sufficientBut]; exact generated_effects_sufficient) rel hloc r hr σ τ hob hcoh
+
+/-- the hypotheses of `generated_tables_preserve_coherence` are satisfiable in a non-trivial way:
+    values are numbers (`0` = `None`), on the plain class `_big_W` is coherent when it is `_W + 1`;
+    `set_post_filter` (its generated row) stores a new `_W` and resets `_big_W` -/
+example :
+    let rel : String → String → Obj Nat → Prop :=
+      fun cls c σ => cls = plainCls → c = "_big_W" → σ "_big_W" = σ "_W" + 1
+    let σ : Obj Nat := fun a => if a = "_W" then 1 else if a = "_big_W" then 2 else 7
+    let τ : Obj Nat := fun a => if a = "_W" then 5 else if a = "_big_W" then 0 else 7
+    let r : Row := { cls := plainCls, name := "set_post_filter", clears := ["_big_W"], assigns := ["_W"],
+                     mayWrite := [], fills := [], reads := ["_W"] }
+    (∀ cls, Local (depsOf C08Effects.fillReads cls) (rel cls)) ∧ r ∈ C08Effects.rows
+    ∧ Obeys 0 (depsOf C08Effects.fillReads r.cls) (rel r.cls) r σ τ
+    ∧ Coh 0 (depsOf C08Effects.fillReads r.cls) (fun _ => false) (rel r.cls) σ := by
+  intro rel σ τ r
+  refine ⟨?_, by decide, ⟨?_, ?_, ?_⟩, ?_⟩
+  · intro cls c a b hab
+    by_cases hcls : cls = plainCls
+    · subst hcls
+      by_cases hc : c = "_big_W"
+      · subst hc
+        have h1 := hab "_big_W" (.inl rfl)
+        have h2 : a "_W" = b "_W" := hab "_W" (.inr (by decide))
+        simp only [rel, h1, h2]
+      · simp only [rel, hc, false_implies, implies_true]
+    · simp only [rel, hcls, false_implies]
+  · intro a ha
+    simp only [Row.written, r, List.append_nil, List.cons_append, List.nil_append, List.mem_cons,
+      List.not_mem_nil, or_false, not_or] at ha
+    simp [σ, τ, ha.1, ha.2]
+  · intro c _ hm
+    simp only [Row.mustWritten, r, List.cons_append, List.nil_append, List.mem_cons, List.not_mem_nil,
+      or_false] at hm
+    rcases hm with rfl | rfl
+    · left; decide
+    · right; intro _ h; exact absurd h (by decide)
+  · intro c _ hm
+    simp only [Row.written, r, List.append_nil, List.cons_append, List.nil_append, List.mem_cons,
+      List.not_mem_nil, or_false] at hm
+    rcases hm with rfl | rfl
+    · right; left; decide
+    · right; right; intro _ h; exact absurd h (by decide)
+  · intro c _ _
+    right
+    intro _ hc
+    subst hc
+    decide
+
+/-- the condition is not vacuous: `set_pathloss` without the reset of `_big_H_with_pathloss`
+    (the design-round defect of the ExtInt class) violates it, and so does a cache `_foo` of
+    `big_H` that `set_pathloss` does not know -/
+example :
+    sufficient (depsOf C08Effects.fillReads)
+      [{ cls := extCls, name := "set_pathloss", clears := ["_H_with_pathloss"],
+         assigns := ["_pathloss_big_matrix", "_pathloss_matrix"], mayWrite := [], fills := [], reads := [] }] = false
+    ∧ sufficient (depsOf (("MultiUserChannelMatrix", "_foo", ["_big_H_with_pathloss", "_pathloss_matrix"])
+        :: C08Effects.fillReads))
+      [{ cls := plainCls, name := "set_pathloss", clears := ["_H_with_pathloss", "_big_H_with_pathloss"],
+         assigns := ["_pathloss_big_matrix", "_pathloss_matrix"], mayWrite := [], fills := [], reads := [] }] = false := by
+  decide
+
+end effects
 
 end PyPhysim.C08
